@@ -801,9 +801,41 @@ class NetCDFWrite(IOWrite):
         return ncvar
 
     def _write_count_variable(
-        self, f, count_variable, ncdim=None, create_ncdim=True
+        self,
+        f,
+        count_variable,
+        ncdim=None,
+        create_ncdim=True,
+        index_variable=None,
+        instance_dimension=None,
     ):
-        """Write a count variable to the netCDF file."""
+        """Write a count variable to the netCDF file.
+
+        :Parameters:
+
+            f: Field construct
+
+            count_variable: Count variable
+
+            ncdim: `str`, optional
+
+            create_ncdim: bool, optional
+
+            index_variable: Index variable, optional
+                The index variable that spans the same dimension as
+                the count variable (indexed contiguous ragged arrays
+                only).
+
+            instance_dimension: `str`, optional
+                The name of the netCDF instance dimension of the
+                *index_variable*.
+
+        :Returns:
+
+            `str`
+                The name of the netCDF sample dimension.
+
+        """
         g = self.write_vars
 
         # A count variable that spans an existing dimension (the
@@ -811,7 +843,22 @@ class NetCDFWrite(IOWrite):
         # count variable that spans the same dimension
         ncdims = None if create_ncdim else (ncdim,)
 
-        if not self._already_in_file(count_variable, ncdims=ncdims):
+        already_in_file = self._already_in_file(count_variable, ncdims=ncdims)
+        if already_in_file and index_variable is not None:
+            # The count variable of an indexed contiguous ragged array
+            # says which samples belong to each profile, and the index
+            # variable on the same dimension says which feature each
+            # profile belongs to. They can therefore only be shared as
+            # a pair: an equal count variable whose dimension is
+            # spanned by a different index variable belongs to another
+            # array.
+            already_in_file = self._already_in_file(
+                index_variable,
+                ncdims=g["seen"][id(count_variable)]["ncdims"],
+                attributes={"instance_dimension": instance_dimension},
+            )
+
+        if not already_in_file:
             ncvar = self._create_netcdf_variable_name(
                 count_variable, default="count"
             )
@@ -4007,7 +4054,12 @@ class NetCDFWrite(IOWrite):
                     count_ncdim = self._remove_group_structure(count_ncdim)
 
                 sample_ncdim = self._write_count_variable(
-                    f, count, ncdim=count_ncdim, create_ncdim=True
+                    f,
+                    count,
+                    ncdim=count_ncdim,
+                    create_ncdim=True,
+                    index_variable=self.implementation.get_index(f),
+                    instance_dimension=data_ncdimensions[0],
                 )
 
                 if not g["group"]:
